@@ -77,8 +77,8 @@ def register(reg):
     ))
 
     reg.add(Contract(
-        f"{OUT}._unpack", self_cls="TimeCachingAdapter", props=["C10.2", "C11.2"], params={"where": Entry}, result=Pay,
-        requires=lambda ctx: And(unpack_pre(ctx), Implies(entry_is_str(ctx.where), Not(is_none(ctx.get(ctx.self, "_output_info"))))),
+        "finam.adapters.time.TimeCachingAdapter._unpack", self_cls="TimeCachingAdapter", props=["C10.2", "C11.2"], params={"where": Entry}, result=Pay,
+        requires=lambda ctx: And(unpack_pre(ctx), Implies(entry_is_str(ctx.where), Not(is_none(ctx.get(ctx.self, "_input_info"))))),
         pure=True, modifies=lambda ctx: [],
         ensures=lambda ctx, r: And(Not(entry_is_str(r)), entry_pay_e(r) == val_in(ctx, ctx.where)),
     ))
@@ -369,6 +369,8 @@ def info_ready_of(ctx, o):
                ctx.get(o, "_out_infos_exchanged").e >= ctx.get(o, "_connected_inputs").keys.n)
 
 
+BOUNDED = {"C08": [{"name": "output-histories", "script": "replay/drivers/seq_output.py", "args": ["--json"], "timeout": 3000}],
+           "C09": [{"name": "output-histories", "script": "replay/drivers/seq_output.py", "args": ["--json"], "timeout": 3000}]}
 REPLAY = {
     f"{OUT}._interpolate": ["output_hist.py", "seq_output.py"],
     f"{OUT}._clear_data": "seq_output.py", f"{OUT}.get_data": "seq_output.py", f"{OUT}.pinged": "seq_output.py",
